@@ -327,3 +327,215 @@ def r_argkind(A, ctx, scope, rule="R-ARGKIND"):
                                 "neighbouring entries are read without any error (no bounds checking in "
                                 "compiled code)", loc=loc(f, call))
     ctx.floor(rule, n, scope.get("floor", 20))
+
+
+ELEMENTWISE = {"abs", "sign", "sqrt", "maximum", "minimum", "where", "log", "exp", "square", "power",
+               "log1p", "expm1", "clip", "fabs", "multiply", "add", "subtract", "divide", "logical_and",
+               "logical_or", "isfinite", "isnan", "dot"}
+
+
+def _shape_leaves(e):
+    """whole arrays an expression combines elementwise: names and `self.attr` reached through
+    arithmetic, comparisons and elementwise numpy calls only (a reduction or a subscript ends
+    the walk: what it yields no longer has the extent of its operand)"""
+    if isinstance(e, ast.Name):
+        return {e.id}
+    if isinstance(e, ast.Attribute) and isinstance(e.value, ast.Name) and e.value.id == "self":
+        return {"self." + e.attr}
+    if isinstance(e, ast.BinOp):
+        return _shape_leaves(e.left) | _shape_leaves(e.right)
+    if isinstance(e, ast.UnaryOp):
+        return _shape_leaves(e.operand)
+    if isinstance(e, ast.Compare):
+        out = _shape_leaves(e.left)
+        for c in e.comparators:
+            out |= _shape_leaves(c)
+        return out
+    if isinstance(e, ast.IfExp):
+        return _shape_leaves(e.body) | _shape_leaves(e.orelse)
+    if isinstance(e, ast.Call) and isinstance(e.func, ast.Attribute) and e.func.attr in ELEMENTWISE \
+            and isinstance(e.func.value, ast.Name) and e.func.value.id in ("np", "numpy"):
+        out = set()
+        for a in e.args:
+            out |= _shape_leaves(a)
+        return out
+    return set()
+
+
+def demands_attr_extent(A, m, prm):
+    """does method `m` need its array parameter `prm` to have exactly the extent of one of its own
+    array attributes?  -> (attr, expression text) or None.  Two shapes: the parameter and the
+    attribute are combined elementwise as whole arrays, or a loop bounded by the length of the
+    parameter subscripts the attribute with the loop variable."""
+    if m.cls is None:
+        return None
+    spec = A.prog.spec_of(m.cls) or []
+    arrs = {"self." + nm for nm, ty in spec if "[" in ty}
+    if not arrs:
+        return None
+    for node in ast.walk(m.node):
+        if isinstance(node, (ast.BinOp, ast.Compare)) or (isinstance(node, ast.Call) and _shape_leaves(node)):
+            lv = _shape_leaves(node)
+            hit = lv & arrs
+            if prm in lv and hit:
+                return sorted(hit)[0], norm_src(node)[:60]
+        if isinstance(node, ast.For) and isinstance(node.target, ast.Name) and isinstance(node.iter, ast.Call) \
+                and ast.unparse(node.iter.func) == "range" and len(node.iter.args) == 1:
+            b = ast.unparse(node.iter.args[0])
+            if b in (f"len({prm})", f"{prm}.shape[0]"):
+                v = node.target.id
+                for sub in ast.walk(node):
+                    if isinstance(sub, ast.Subscript) and ast.unparse(sub.value) in arrs \
+                            and isinstance(sub.slice, ast.Name) and sub.slice.id == v:
+                        return ast.unparse(sub.value), f"for {v} in range({b}): {norm_src(sub)}"
+    return None
+
+
+def solver_reach(A, sf):
+    """functions a solver class can execute: its methods and what they call directly"""
+    flow = A.flow
+    todo = list(sf.cls.methods.values())
+    seen = []
+    while todo:
+        f = todo.pop()
+        if f in seen:
+            continue
+        seen.append(f)
+        for call, callees, kind in flow.calls.get(f, ()):
+            if kind in ("direct", "self", "nested"):
+                todo += [c for c in callees if c not in seen]
+    return seen
+
+
+def accepted_components(A, V, sf):
+    """penalty / datafit classes some cell of the solver's validation lets through"""
+    import itertools
+    from .matrix import Refuse, knob_space
+    ks = knob_space(sf)
+    combos = [dict(zip(ks, vals)) for vals in itertools.product(*ks.values())] or [{}]
+    okP, okD = [], []
+    for P in A.prog.penalties:
+        for D in A.prog.datafits:
+            done = False
+            for kn in combos:
+                for sparse in (False, True):
+                    try:
+                        V.validate(sf.cls, dict(sparse=sparse, knobs=kn, datafit=D, penalty=P))
+                    except Refuse:
+                        continue
+                    if P not in okP:
+                        okP.append(P)
+                    if D not in okD:
+                        okD.append(D)
+                    done = True
+                    break
+                if done:
+                    break
+    return okP, okD
+
+
+def r_fullarg(A, ctx, scope, rule="R-FULLARG"):
+    from .matrix import Validator, knob_space
+    ctx.rule(rule, "whole-array arguments of penalty / datafit methods: when an implementation the solver "
+             "accepts combines an array parameter elementwise with one of its own array attributes "
+             "(per-feature weights), or loops over the parameter's length while subscripting the attribute, "
+             "every call site of that slot in the solver hands over an array of exactly the attribute's "
+             "extent - `a[:n_features]`, or the coefficient array of a solver without an intercept slot; "
+             "an array restricted to the working set (`w[ws]`) or the coefficient array with its intercept "
+             "slot broadcasts against / runs past the attribute")
+    V = Validator(A)
+    flow = A.flow
+    kinds = {}
+    n = n_dem = 0
+    for sname, sf in sorted(A.facts.items()):
+        okP, okD = accepted_components(A, V, sf)
+        # does this solver allocate an intercept slot behind the coefficients?
+        has_icpt = any(isinstance(c, ast.Call) and ast.unparse(c.func) in ("np.zeros", "np.empty")
+                       and c.args and "fit_intercept" in ast.unparse(c.args[0])
+                       for m in sf.cls.methods.values() for c in ast.walk(m.node))
+        for f in solver_reach(A, sf):
+            env = flow.env.get(f, {})
+            for call, callees, kind in flow.calls.get(f, ()):
+                if not kind.startswith("slot:"):
+                    continue
+                ok_cls = okP if kind.endswith("PENALTY") else okD
+                for callee in callees:
+                    if callee.cls not in ok_cls:
+                        continue
+                    bnd, _ = flow.bind(f, call, callee)
+                    for prm, a in bnd.items():
+                        n += 1
+                        dem = demands_attr_extent(A, callee, prm)
+                        if dem is None:
+                            continue
+                        n_dem += 1
+                        fk = kinds.get(f)
+                        if fk is None:
+                            fk = kinds[f] = FuncKinds(flow, f)
+                        verdict = None
+                        if isinstance(a, ast.Subscript):
+                            first = a.slice.elts[0] if isinstance(a.slice, ast.Tuple) else a.slice
+                            if isinstance(first, ast.Slice):
+                                verdict = None
+                            else:
+                                t = fk.type_of(a)
+                                if t and t[0] and _dom_class(t[0][0]) == "position":
+                                    verdict = "is restricted to the working set"
+                        elif isinstance(a, ast.Name) and has_icpt and set(env.get(a.id, ())) & {"W", "W0"} \
+                                and dem[0] != "self." + a.id:
+                            verdict = ("is the coefficient array with its intercept slot "
+                                       "(n_features + fit_intercept entries)")
+                        ctx.ob(rule, f"{f.fq}::{callee.cls.name}.{callee.name}({prm}={norm_src(a)[:40]})", verdict is None,
+                               what=f"{f.qualname} calls {callee.name}({norm_src(a)[:40]}) and {sname} accepts "
+                                    f"{callee.cls.name}, whose {callee.name} needs `{prm}` to have the extent of "
+                                    f"`{dem[0]}` (`{dem[1]}`), but the argument {verdict}: the product broadcasts "
+                                    "against / the loop runs past the per-feature array (error inside compiled "
+                                    "code, or a neighbour's weight without one)", loc=loc(f, call))
+    ctx.extra["slot_arguments"] = n
+    ctx.floor(rule + "/slot-arguments", n, scope.get("floor_args", 200))
+    ctx.floor(rule, n_dem, scope.get("floor", 10))
+
+
+INDEX_ROLES = {"WS", "CSC_INDPTR", "CSC_INDICES", "GRP_PTR", "GRP_INDICES"}
+
+
+def r_likedtype(A, ctx, scope, rule="R-LIKEDTYPE"):
+    ctx.rule(rule, "element type of `*_like` allocations: `np.zeros_like(a)` (empty_like, ones_like, full_like) "
+             "without a dtype takes the element type of `a`; when `a` is an integer index array (working set, "
+             "CSC indices / pointers, group indices / pointers) the result only ever receives indices or "
+             "integer constants - a score or coefficient stored there is truncated to an integer (and "
+             "`np.inf` overflows)")
+    flow = A.flow
+    n = n_idx = 0
+    for f, fk in all_kinds(A).items():
+        env = flow.env.get(f, {})
+        for st in ast.walk(f.node):
+            if not (isinstance(st, ast.Assign) and len(st.targets) == 1 and isinstance(st.targets[0], ast.Name)
+                    and isinstance(st.value, ast.Call) and ast.unparse(st.value.func) in
+                    ("np.zeros_like", "np.empty_like", "np.ones_like", "np.full_like") and st.value.args):
+                continue
+            n += 1
+            src = st.value.args[0]
+            if any(k.arg == "dtype" for k in st.value.keywords) or not isinstance(src, ast.Name):
+                continue
+            if not (set(env.get(src.id, ())) & INDEX_ROLES or fk.elem.get(src.id)):
+                continue
+            n_idx += 1
+            tgt = st.targets[0].id
+            bad = None
+            for x in ast.walk(f.node):
+                if isinstance(x, (ast.Assign, ast.AugAssign)):
+                    t = x.targets[0] if isinstance(x, ast.Assign) else x.target
+                    if isinstance(t, ast.Subscript) and isinstance(t.value, ast.Name) and t.value.id == tgt:
+                        v = x.value
+                        is_int = (isinstance(v, ast.Constant) and isinstance(v.value, int)
+                                  and not isinstance(v.value, bool)) or fk.kind_of(v) is not None
+                        if not is_int:
+                            bad = x
+            ctx.ob(rule, f"{f.fq}::{norm_src(st)[:60]}", bad is None,
+                   what=(f"{f.qualname}: `{norm_src(st)}` has the integer element type of the index array "
+                         f"`{src.id}`, and `{norm_src(bad)[:60]}` stores a real number in it: the value is "
+                         "truncated (scores below 1 read as 0: the point is declared optimal) and "
+                         "`np.inf` cannot be stored") if bad is not None else "", loc=loc(f, st))
+    ctx.extra["like_allocations"] = n
+    ctx.floor(rule, n, scope.get("floor", 15))
